@@ -40,7 +40,8 @@ Definition check_case (c : ctxcase) : report :=
   let mtargets := flat_map make_targets (x_makefiles c) in
   let mkeys := boost_keys mtypes (x_scripts c) mtargets in
   let mism :=
-    if negb (list_eqb bytes_eqb (x_types c) mtypes) then Some "project_types"
+    if negb (list_eqb bytes_eqb (sort_names (x_listing c)) (x_listing c)) then Some "listing_in_name_order"
+    else if negb (list_eqb bytes_eqb (x_types c) mtypes) then Some "project_types"
     else if negb (list_eqb bytes_eqb (x_targets c) mtargets) then Some "make_targets"
     else if negb (same_set_b bytes_eqb (x_obs_scripts c) (x_scripts c)) then Some "package_scripts"
     else if negb (Nat.eqb (List.length (x_boosts c)) (List.length mkeys)) then Some "boost_keys"
